@@ -25,6 +25,7 @@ type SplitSpec struct {
 	E      Expr
 	Lo, Hi int64
 	Src    string
+	Kind   string // "" = all obligations; otherwise only obligations of this kind (e.g. "post")
 }
 
 type LoopContract struct {
@@ -312,10 +313,12 @@ func parseClause(fc *FuncContract, kw, rest, pos string) error {
 		}
 		fc.Lets = append(fc.Lets, LetDef{Name: strings.TrimSpace(rest[:i]), E: e})
 	case "split":
-		sp, err := parseSplit(rest)
+		kind, body := parseLabel(rest)
+		sp, err := parseSplit(body)
 		if err != nil {
 			return err
 		}
+		sp.Kind = kind
 		fc.Splits = append(fc.Splits, sp)
 	case "modifies":
 		for _, p := range strings.Split(rest, ",") {
